@@ -90,6 +90,29 @@ def run(ctx):
                 if not dom.relclose(float(tb[col][j]), float(w), 1e-12):
                     bad(f"table column {col} differs from the stand-alone correlation at the row's pressure", dict(**inp, row=int(j), p=p),
                         dict(table=float(tb[col][j]), correlation=float(w)))
+        # the same composition with the OTHER dryness setting, and then an unknown fluid type, in the same process: each table must
+        # still come from its own setting's pseudocritical point, and the unknown type must still be rejected
+        other = "dry gas" if g["dry"] == "wet gas" else "wet gas"
+        with warnings.catch_warnings():
+            warnings.simplefilter("ignore")
+            tb_o = build_pvt_gas(dict(vals), other, pmax)
+        tpc_o, ppc_o = gas.pseudocritical_point_Sutton(g["sg"], gas.make_nonhydrocarbon_properties(g["n2"], g["h2s"], g["co2"]), other)
+        for j in rows[:3]:
+            p = float(P[j])
+            for col, w in (("z-factor", gas.z_factor_DAK(g["T"], p, tpc_o, ppc_o)), ("viscosity", gas.viscosity_Sutton(g["T"], p, tpc_o, ppc_o, g["sg"]))):
+                ev += 1
+                if not dom.relclose(float(tb_o[col][j]), float(w), 1e-12):
+                    bad(f"table column {col} differs from the stand-alone correlation at the row's pressure (table built right after one for the other dryness setting)",
+                        dict(gas_values=vals, dryness=other, built_after=g["dry"], maximum_pressure=pmax, row=int(j), p=p), dict(table=float(tb_o[col][j]), correlation=float(w)))
+        for unknown in ("condensate", "gas"):
+            ev += 1
+            try:
+                with warnings.catch_warnings():
+                    warnings.simplefilter("ignore")
+                    build_pvt_gas(dict(vals), unknown, pmax)
+                bad("an unknown fluid type is not rejected", dict(gas_values=vals, fluid=unknown, after_valid_call_with=other), "table returned")
+            except ValueError:
+                pass
         # pseudocritical point properties
     for k in range(20 if ctx.quick else 400):
         sg = float(rng.uniform(0.55, 1.2))
